@@ -27,7 +27,7 @@ MANIFEST = {
             "`unvalidated` (cap 5 %), a program it refuses is a violation (with a concrete input when host execution exhibits one). AArch64 and "
             "x86-32 code cannot be executed here: refusals there are reported without a failing input.",
 }
-MODS = ["AsmjitVerif.Props.C05"]
+MODS = ["AsmjitVerif.Props.C05", "AsmjitVerif.Props.C05Idioms"]
 
 
 def generate():
@@ -104,7 +104,8 @@ def a64_programs(rng, n):
     R, I, M, L = c05_gen.R, c05_gen.Imm, c05_gen.Mem, c05_gen.Lbl
     progs = []
     for k in range(n):
-        nlive = rng.choice([2, 4, 8, 16, 24, 28, 32, 40, 64, 120])
+        heavy = k % 4 == 3          # > 30 live GP and > 32 live vector values, kept live across calls
+        nlive = rng.choice([34, 40, 48, 64]) if heavy else rng.choice([2, 4, 8, 16, 24, 28, 32, 40, 64, 120])
         regs = [("p", "ptr"), ("a", "u64"), ("b", "u64")]
         body = []
         gp = ["a", "b"]
@@ -117,7 +118,7 @@ def a64_programs(rng, n):
                 body.append(("i", "add", [R(r), R(rng.choice(gp)), I(rng.randrange(0, 4096))]))
             gp.append(r)
         vec = []
-        for i in range(rng.choice([0, 0, 2, 4, 8, 34])):
+        for i in range(rng.choice([34, 36, 40, 48]) if heavy else rng.choice([0, 0, 2, 4, 8, 34])):
             v = "q%d" % i
             regs.append((v, "v128"))
             body.append(("i", "ldr", [R(v, "q"), M(0, "p", 16 * (i % 16))]))
@@ -181,6 +182,10 @@ def a64_programs(rng, n):
                     body.append(("i", "mov", [R(d), R(s)]))
 
         block(0, rng.randrange(4, 50))
+        if heavy:       # at least three calls with everything live across them
+            for _ in range(3):
+                body.append(("call", rng.choice(gp[2:]), [R(rng.choice(gp)) for _ in range(rng.randrange(0, 9))]))
+                block(0, rng.randrange(2, 10))
         regs.append(("res", "u64"))
         body.append(("i", "mov", [R("res"), I(0)]))
         for g in gp:
@@ -324,11 +329,28 @@ def x86_32_programs(rng, n):
             regs.append((r, "u32"))
             body.append(("i", "lea", [R(r), M(0, "a", i + 1)]) if rng.random() < 0.6 else ("i", "mov", [R(r), I(rng.randrange(-1000, 1000))]))
             gp.append(r)
+        xv = []
+        for i in range(rng.choice([0, 0, 4, 9, 12, 16])):      # 64-bit values: only 8 xmm registers on x86-32
+            x = "x%d" % i
+            regs.append((x, "v128"))
+            body.append(("i", "movq", [R(x), M(8, "p", 8 * (i % 28))]))
+            xv.append(x)
         label = [1]
         for _ in range(rng.randrange(4, 50)):
             c = rng.random()
             d, s = rng.choice(gp), rng.choice(gp)
-            if c < 0.4:
+            if xv and c < 0.2:
+                a, b2 = rng.choice(xv), rng.choice(xv)
+                cc = rng.random()
+                if cc < 0.5:
+                    body.append(("i", rng.choice(["paddq", "psubq", "pxor", "pand", "por"]), [R(a), R(b2)]))
+                elif cc < 0.7:
+                    body.append(("i", "movq", [M(8, "p", 8 * rng.randrange(0, 28)), R(a)]))
+                elif cc < 0.85:
+                    body.append(("i", "movd", [R(d), R(a)]))
+                else:
+                    body.append(("i", "movd", [R(a), R(d)]))
+            elif c < 0.4:
                 body.append(("i", rng.choice(["add", "sub", "and", "or", "xor", "imul", "mov"]), [R(d), R(s)]))
             elif c < 0.5:
                 body.append(("i", rng.choice(["shl", "shr", "sar"]), [R(d), R(s, "r8")]))
@@ -357,6 +379,8 @@ def x86_32_programs(rng, n):
         body.append(("i", "xor", [R("res"), R("res")]))
         for g in gp:
             body.append(("i", "add", [R("res"), R(g)]))
+        for i, x in enumerate(xv):
+            body.append(("i", "movq", [M(8, "p", 8 * (i % 28)), R(x)]))
         body.append(("ret", "res"))
         progs.append({"arch": ["x86"], "regs": regs, "stacks": [], "ret": "u32", "argtypes": ["u32", "u32"], "args": ["p", "a"], "body": body, "inputs": [],
                       "family": "x86-32-random"})
@@ -466,7 +490,7 @@ def run(res):
     list_first = {}
     for p in list_progs:
         l = c05_gen.render(p)
-        o, rc3, err3 = vlib.run_lines([str(h)], [l], timeout=120)
+        o, rc3, err3 = vlib.run_lines([str(h)], [l], timeout=900)
         if rc3 != 0 or not o:
             k = "abort"
             info = ([x for x in err3.splitlines() if "ERROR: AddressSanitizer" in x or "runtime error" in x] + [x for x in err3.splitlines() if " #0 " in x or " #1 " in x])[:3]
@@ -507,6 +531,7 @@ def run(res):
     fam = collections.Counter()
     unsupported = collections.Counter()
     rejects, mism, exec_missing = [], [], []
+    actions = collections.defaultdict(collections.Counter)
     nexec = 0
     inserted = deleted = pairs = 0
     for i, (p, o, v) in enumerate(zip(progs, impl, verdicts)):
@@ -519,6 +544,10 @@ def run(res):
         if k == "valid":
             f = dict(x.split("=") for x in v.split()[1:])
             inserted += int(f["ins"])
+            for kk in ("spill", "reload", "move", "swap", "jump", "r2m"):
+                actions[p["family"]][kk] += int(f.get(kk, 0))
+                if int(f.get(kk, 0)):
+                    actions[p["family"]]["programs_with_" + kk] += 1
             deleted += int(f["del"])
             pairs += int(f["pairs"])
         elif k == "unsupported":
@@ -548,13 +577,19 @@ def run(res):
     res.coverage["certificate_pairs"] = pairs
     res.coverage["allocator_inserted_instructions"] = inserted
     res.coverage["allocator_deleted_instructions"] = deleted
+    res.coverage["allocator_actions_by_family"] = {k: dict(v) for k, v in sorted(actions.items())}
     res.coverage["exhaustive"] = False
     res.coverage["trusted_translation"] = [
         "RW classification of every operand from InstAPI::query_rw_info (a write not covering the virtual register = read-modify-write)",
         "instruction key = mnemonic + options + operand shapes/sizes/immediates/labels/displacements; twin instructions with equal keys compute the same function",
-        "move whitelist with byte widths (mov/movaps/movdqa/vmovdqa32/kmov*/ldr/str ...); xchg = swap with width",
-        "width-aware idiom rules of the validator itself (xor r,r; or r,r; op r,0; or r,-1)",
-        "register-to-memory substitution: same function when the memory form exists (InstAPI::validate on the allocated instruction) and does not lose a zero extension",
+        "move whitelist: which mnemonics are plain copies and how many bytes they move (Model/RAIdioms.lean moveBytes) - PROVED: a move of b bytes "
+        "(zero-extending or merging) copies every virtual register of at most b bytes exactly (Props/C05Idioms.lean zx_move_copies, merge_move_copies); "
+        "trusted: that the listed mnemonics are such moves (Spec/X86Regs.lean, from the manuals); xchg = swap with width",
+        "width-aware idiom rules (Model/RAIdioms.lean classify) - PROVED against the BitVec semantics of Spec/X86Regs.lean for GP widths 1/2/4/8: "
+        "zero_rule_sound, keep_same_rule_sound, imm_zero_rule_sound, ones_rule_sound, and_zero_is_not_keep (+ witnesses that each side condition is needed); "
+        "vector forms: vec_zero_idioms, vec_keep_idioms",
+        "register-to-memory substitution - PROVED: when not refused the memory form gives the same observable value (reg_to_mem_rule_sound, reg_to_mem_read; "
+        "reg_to_mem_refused_case shows the refused case differs); trusted: that the memory form exists is checked with InstAPI::validate",
         "immediate call arguments: `K := const v` in the virtual program, the allocator's `mov loc, imm` is the same const function",
         "by-reference arguments: the callee reads the temporary whose address (`lea reg, [sp+X]`) is passed",
         "prolog/epilog = frame instructions that only destroy what they write (C07); ABI locations from FuncDetail (C06)",
